@@ -213,7 +213,7 @@ class KMeans(Medoids):
             if sum_min_dists == 0.0:
                 logger.warning('There are only {} < k={} different series'.format(k_idx, self.k))
                 weights = None
-                cur_n_samples = n_samples
+                cur_n_samples = min(n_samples, len(min_dists))
             else:
                 weights = min_dists / sum_min_dists
                 # Sampling without replacement cannot return more candidates than there
